@@ -89,7 +89,7 @@ pub fn out_of_range(w: Which) -> Vec<Act> {
 pub fn slices(tier: Tier) -> Vec<Slice> {
     let mut v = vec![];
     // (main) one register set over all subsets of a representative bit set
-    let bits: &[u8] = tier.pick(&[0, 15][..], &[0, 7, 14, 15][..]);
+    let bits: &[u8] = tier.pick(&[0, 14, 15][..], &[0, 7, 14, 15][..]);
     for w in [Which::Oper, Which::Ques] {
         // thorough: the second set over a smaller bit set (the code is generic over the set)
         let bits: &[u8] = if tier == Tier::Thorough && w == Which::Ques { &[0, 14, 15] } else { bits };
@@ -146,7 +146,7 @@ pub fn run(ctx: &'static Ctx) -> i32 {
             "STATus:PRESet leaves the condition register to the device (SCPI-99 20.2), see DESIGN.md section 3.4".into(),
             "device fields are compared modulo bit 15: the property constrains only what is reported".into(),
         ],
-        vec![("bounds", json!({"bit_set": format!("{:?}", ctx.tier.pick(&[0u8, 15][..], &[0u8, 7, 14, 15][..]))}))],
+        vec![("bounds", json!({"bit_set": format!("{:?}", ctx.tier.pick(&[0u8, 14, 15][..], &[0u8, 7, 14, 15][..]))}))],
     )
 }
 
